@@ -156,6 +156,23 @@ def runCase (c : Case) : String × String :=
         s!"align[names={joinStr names};cols={joinStr (sortStrings (cols.map strOf))}]"
     (m, sp)
   | "lo_cmd" | "lo_comp" | "lo_snps" | "lo_mid" | "lo_out" | "lo_graph" => runLo c
+  | "bam" =>
+    let W := c.nat "w"
+    let k := c.nat "k"
+    let rc := c.flag "rc"
+    let samples := parseSamples (c.get "samples")
+    let built := samples.map (fun recs => buildDict W k rc recs)
+    let m :=
+      if built.any (fun b => match b with | .dict _ => false | _ => true) then "novalid"
+      else
+        let sds : List SampleDict := built.zipIdx.map (fun bi =>
+          { k := k, rc := rc, idx := bi.2, name := s!"s{bi.2}", kmers := match bi.1 with | .dict d => d | _ => [] })
+        match buildAndMerge k rc (c.nat "threads") sds with
+        | .error _ => "refused"
+        | .ok md => dumpArr (Arr.ofDict W md)
+    let names := (List.range samples.length).map (fun i => s!"s{i}")
+    let tb := Spec.specTable k rc names samples
+    (m, s!"k={k},rc={b2s rc},names={joinStr names};rows={dumpRows tb.rows}")
   | "covll" => runCovll c
   | "covcut" => runCovcut c
   | "covcheck" => runCovcheck c
